@@ -1,7 +1,7 @@
 #!/usr/bin/env python3
 """Mutation sensitivity: systematic small edits of the anchored JASM files, independent of hand- or agent-written seeds.
 
-  tools/mutate.py gen                         -> .work/mutants/mutants.json  (all candidate mutants of the anchored files)
+  tools/mutate.py gen                         -> mutation/mutants.json  (all candidate mutants of the anchored files)
   tools/mutate.py filter [--sample N] [--seed S]   keep mutants that still import and pass the 129 stable tests -> survivors.json
   tools/mutate.py kill [--limit N]            run the quick checks of the properties anchored in the mutated file (+ C07, C12)
                                               against each survivor; -> results.json, table on stdout
@@ -33,7 +33,7 @@ import xml.etree.ElementTree as ET
 from concurrent.futures import ThreadPoolExecutor
 
 VERIF = os.path.dirname(os.path.dirname(os.path.abspath(__file__)))
-OUT = os.path.join(VERIF, ".work", "mutants")
+OUT = os.path.join(VERIF, "mutation")  # committed: mutants.json, suite.json, survivors.json, results.json
 BASE = json.load(open("/root/.vp/BASELINE.json"))
 SKIP_FILES = ("logging_config.py", "parse_arguments.py", "__init__.py")
 
